@@ -27,6 +27,9 @@ pub struct VO {
     pub content: u8,
     pub addr: usize,
 }
+/// capacity of the second operand of the trace operations eq_other / s_eq_other
+pub const OTHER_CAP: usize = 310;
+
 pub fn ko(k: &Key) -> KO {
     k.check("returned key");
     KO { serial: k.serial, class: k.class(), ver: k.ver, addr: k as *const Key as usize }
@@ -667,6 +670,24 @@ pub fn exec_map<const N: usize>(cage: &mut Cage<Map<Key, Val, N>>, op: &Value, c
             let r = if op["ne"].as_bool().unwrap_or(false) { call(ctx, || a != bb) } else { call(ctx, || a == bb) };
             ctx.stash.push(b);
             json!(["b", r])
+        }
+        "eq_other" => {
+            // (traces) the container against another one of a different capacity holding op.b
+            let mut b: Box<Map<Key, Val, OTHER_CAP>> = Box::new(Map::new());
+            for e in op["b"].as_array().unwrap() {
+                let (k, v) = (Key::new(e[0].as_u64().unwrap() as Cls, 1), Val::new(e[1].as_u64().unwrap() as u8));
+                ctx.stash_serials.push(k.serial);
+                ctx.stash_serials.push(v.serial);
+                b.insert(k, v);
+            }
+            let a = &cage.m;
+            let bb: &Map<Key, Val, OTHER_CAP> = &b;
+            let r = (call(ctx, || a == bb), call(ctx, || a != bb), call(ctx, || bb == a));
+            ctx.stash.push(b);
+            match r {
+                (Some(eq), Some(ne), Some(rev)) => json!(["eqs", eq, ne, rev]),
+                _ => json!(["panic"]),
+            }
         }
         "eq_clone" => {
             // (traces) a container compares equal to its own clone, whatever its size and slot order
@@ -1532,6 +1553,23 @@ pub fn exec_set<const N: usize>(cage: &mut Cage<Set<Key, N>>, op: &Value, ctx: &
             match r {
                 None => json!(["panic"]),
                 Some(b) => json!(["b", b]),
+            }
+        }
+        "s_eq_other" => {
+            // (traces) the container against another set of a different capacity holding op.b
+            let mut b: Box<Set<Key, OTHER_CAP>> = Box::new(Set::new());
+            for e in op["b"].as_array().unwrap() {
+                let k = Key::new(e[0].as_u64().unwrap() as Cls, 1);
+                ctx.stash_serials.push(k.serial);
+                b.insert(k);
+            }
+            let a = &cage.m;
+            let bb: &Set<Key, OTHER_CAP> = &b;
+            let r = (call(ctx, || a == bb), call(ctx, || a != bb), call(ctx, || bb == a));
+            ctx.stash.push(b);
+            match r {
+                (Some(eq), Some(ne), Some(rev)) => json!(["eqs", eq, ne, rev]),
+                _ => json!(["panic"]),
             }
         }
         "s_algebra" => {
